@@ -58,7 +58,8 @@ func stateCanon(st *core.State) string {
 	if st.Bs == nil {
 		return st.NodeName + "/null"
 	}
-	return st.NodeName + "/" + ref.Canon(map[string]interface{}(st.Bs))
+	// error text is scrubbed: it can name either of two offending keys depending on map order
+	return st.NodeName + "/" + canonBs(map[string]interface{}(st.Bs))
 }
 
 func mapPtr(m interface{}) uintptr {
